@@ -197,6 +197,9 @@ inductive Op
   | poke (at_ : Ref) (bytes : Bytes)                -- memcpy into already allocated memory
   | ref (slot : Ref)                                -- yr_arena_ptr_to_ref(*(void**) yr_arena_get_ptr(slot))
   | rt (target : Option Ref)                        -- yr_arena_ptr_to_ref(yr_arena_ref_to_ptr(target))
+  /-- make_ptr_relocatable(slot) and *(void**)slot = yr_arena_ref_to_ptr(target), in either order with no allocation
+      in between, whatever the slot held before (compiler.c: the value.s field of a string external) -/
+  | regPtr (slot : Ref) (target : Option Ref)
 deriving Repr
 
 /-- what a client observes from an operation, free of addresses: the reference an allocation returns,
@@ -247,6 +250,10 @@ def exec (cfg : Cfg) (newBase : Nat) (a : Arena) : Op → Except Err (Arena × O
   | .rt target =>
       match refToPtr a.bufs target with
       | .ok p => .ok (a, queryOut (ptrToRef a.bufs p))
+      | .error e => .error e
+  | .regPtr slot target =>
+      match refToPtr a.bufs target with
+      | .ok p => if InB a slot then .ok (setSlot (makeRelocs a slot.buf 0 [slot.off]) slot p, .unit) else .error .outOfBounds
       | .error e => .error e
 
 /-- one client operation (the arena afterwards) -/
